@@ -407,6 +407,50 @@ def build_pool(rng):
         ops.append({"k": "compare", "f": f, "ref": b, "l10n": b, "extra": None, "merge": True,
                     "loc": loc, "fam": fam})
         ops.append({"k": "lint", "f": f, "ref": None, "cur": b, "extra": None, "fam": fam})
+    # android-dtd: the shared SAX text handler; values that are not well-formed XML after values with
+    # an unescaped apostrophe, in one file and across two files
+    d = FMT.index("dtd")
+    da = add_text(d, '<!ENTITY a "it\'s fine">\n<!ENTITY b "plain">\n')
+    db = add_text(d, '<!ENTITY a "broken <b>tag">\n<!ENTITY b "it\'s here">\n<!ENTITY c "an &amp <i>x">\n')
+    for name in (None, "g.dtd"):
+        extra = {"name": name} if name else {}
+        for r_, l_ in ((da, da), (db, db), (da, db), (db, da)):
+            ops.append(dict({"k": "compare", "f": d, "ref": r_, "l10n": l_, "extra": ["android-dtd"],
+                             "merge": False, "fam": "rep:dtd"}, **extra))
+        for c_ in (da, db):
+            ops.append(dict({"k": "lint", "f": d, "ref": None, "cur": c_, "extra": ["android-dtd"],
+                             "fam": "rep:dtd"}, **extra))
+    # zero-byte files and files holding only a newline, read through readFile, in every role, next to
+    # non-empty files of the same format; lint with a reference path that does not exist
+    for f in range(7):
+        e0, e1 = add_text(f, ""), add_text(f, "\n")
+        r_, l_ = pairs[f][0]
+        fam = "empty:" + FMT[f]
+        lead = [{"k": "parse", "f": f, "t": r_, "file": True},
+                {"k": "compare", "f": f, "ref": r_, "l10n": l_, "extra": None, "merge": False},
+                {"k": "lint", "f": f, "ref": None, "refmissing": True, "cur": l_, "extra": None},
+                {"k": "add", "f": f, "ref": r_}]
+        rest = [{"k": "parse", "f": f, "t": e0, "file": True},
+                {"k": "parse", "f": f, "t": e1, "file": True},
+                {"k": "compare", "f": f, "ref": e0, "l10n": l_, "extra": None, "merge": False},
+                {"k": "compare", "f": f, "ref": r_, "l10n": e0, "extra": None, "merge": True},
+                {"k": "compare", "f": f, "ref": e1, "l10n": l_, "extra": None, "merge": False},
+                {"k": "lint", "f": f, "ref": r_, "cur": e0, "extra": None},
+                {"k": "lint", "f": f, "ref": e0, "cur": l_, "extra": None},
+                {"k": "lint", "f": f, "ref": None, "cur": e0, "extra": None},
+                {"k": "lint", "f": f, "ref": None, "refmissing": True, "cur": r_, "extra": None},
+                {"k": "add", "f": f, "ref": e0}]
+        for o in lead:
+            ops.append(dict(o, fam=fam, lead=True))
+        for o in rest:
+            ops.append(dict(o, fam=fam))
+    # the same for the finding-bearing contents: a reference that does not exist, after its partner
+    for fmt, (alt, ref_t, l10n_t) in sorted(FINDINGS.items()):
+        f = FMT.index(fmt)
+        a, b = texts[f].index(ref_t), texts[f].index(l10n_t)
+        ops.append({"k": "lint", "f": f, "ref": None, "refmissing": True, "cur": b, "extra": None,
+                    "fam": "rep:" + fmt})
+        ops.append({"k": "parse", "f": f, "t": a, "file": True, "fam": "rep:" + fmt})
     # names of one extension family: with and without a parser
     for ext, names in sorted(NAME_FAMILIES.items()):
         for name in names:
@@ -435,7 +479,7 @@ def build_pool(rng):
         ops.append({"k": "moz", "path": path, "pat": pat})
     for m, what, path in MATCHER_QUERIES:
         ops.append({"k": "matcher", "m": m, "what": what, "path": path})
-    have = {(o["f"], o["t"]) for o in ops if o["k"] == "parse" and "name" not in o}
+    have = {(o["f"], o["t"]) for o in ops if o["k"] == "parse" and "name" not in o and "file" not in o}
     for f in range(7):          # every text also as a plain parse (the walk tables need it)
         for i in range(len(texts[f])):
             if (f, i) not in have:
@@ -602,7 +646,10 @@ def exec_op(proc, spec, texts, keep):
     if k == "parse" or k == "walkflag":
         from compare_locales import parser as _parser
         p = _parser.getParser(name_of(spec))
-        p.readUnicode(texts[spec["f"]][spec["t"]])
+        if spec.get("file"):
+            p.readFile(proc.write(name_of(spec), texts[spec["f"]][spec["t"]]))   # zero-byte files included
+        else:
+            p.readUnicode(texts[spec["f"]][spec["t"]])
         if k == "walkflag":
             p.ctx.filter_empty_lines = True
         es = list(p.parse())
@@ -646,10 +693,23 @@ def exec_op(proc, spec, texts, keep):
             return [cc.observers.toJSON(), cc.observers.observers[0].toJSON(),
                     cc.observers.serializeDetails(), cc.observers.serializeSummaries(), merged]
         return canon_tmp(guarded(go), proc.tmp), None
+    if k == "add":
+        from compare_locales.compare import ContentComparer, Observer
+        from compare_locales.paths import File
+        refp = proc.write(name, texts[f][spec["ref"]])
+
+        def go():
+            cc = ContentComparer()
+            cc.observers.append(Observer())
+            cc.add(File(refp, "sub/" + name), File(proc.path(name), "sub/" + name, locale="de"), None)
+            return [cc.observers.toJSON(), cc.observers.serializeDetails()]
+        return canon_tmp(guarded(go), proc.tmp), None
     if k == "lint":
         from compare_locales.lint.linter import L10nLinter
         curp = proc.write(name, texts[f][spec["cur"]])
         refp = proc.write(name, texts[f][spec["ref"]]) if spec["ref"] is not None else None
+        if spec.get("refmissing"):
+            refp = proc.path(name)          # the reference lookup names a file that does not exist
 
         def go():
             # the public entry: files without a parser are skipped
@@ -829,7 +889,7 @@ def run_forked(specs, texts, timeout=120):
     return join_sequence(*fork_sequence(specs, texts, timeout))
 
 
-def run_forked_many(seqs, texts, par=6):
+def run_forked_many(seqs, texts, par=10):
     """every sequence in its own child of this process, a few at a time; results in order"""
     outs = []
     for i in range(0, len(seqs), par):
@@ -901,7 +961,7 @@ class Tables:
                                                   [enc_pentry(p) for p in
                                                    events_of(r["pent"], r["jid"],
                                                              eff_counter(st, o["f"]))], int(fl)]
-            elif o["k"] in ("compare", "lint", "merge", "serialize", "getparser"):
+            elif o["k"] in ("compare", "lint", "merge", "serialize", "getparser", "add"):
                 self.vres[o["id"]] = intern.id(b["res"])
                 if st["dtd_set"]:
                     self.dtd[o["id"]] = st["dtd"]
@@ -930,6 +990,8 @@ class Tables:
             return list(o["rs"])
         if k == "serialize":
             return [o["ref"], o["old"]]
+        if k == "add":
+            return [o["ref"]]
         return []
 
     def enc_op(self, o):
@@ -947,6 +1009,8 @@ class Tables:
             return [3, f, [tx[f][o["ref"]]] if o["ref"] is not None else [], tx[f][o["cur"]], o["id"]]
         if k == "merge":
             return [4, f, [tx[f][i] for i in o["rs"]], o["id"]]
+        if k == "add":
+            return [4, f, [tx[f][o["ref"]]], o["id"]]       # reads the reference, nothing else
         if k == "serialize":
             return [5, f, tx[f][o["ref"]], tx[f][o["old"]], o["id"]]
         if k == "filter":
@@ -1048,7 +1112,7 @@ def collides(tables, o, j0):
 def describe(seq, texts, upto=None):
     out = []
     for o in seq[:upto]:
-        d = {k: v for k, v in o.items() if k not in ("id", "fam")}
+        d = {k: v for k, v in o.items() if k not in ("id", "fam", "lead")}
         for fld in ("t", "ref", "l10n", "cur", "old"):
             if fld in d and d[fld] is not None and "f" in d:
                 d[fld] = texts[d["f"]][d[fld]]
@@ -1077,6 +1141,8 @@ def last_read(seq, i):
             return o["rs"][-1] if o["rs"] else None
         if k == "serialize":
             return o["old"]
+        if k == "add":
+            return o["ref"]
     return None
 
 
@@ -1123,7 +1189,7 @@ def judge(chk, tables, base_by_id, parse_base, seq, run, texts, where):
                          {"got": got["ents"], "fresh": canon_parse(exp)["ents"]})
             continue
         if r["res"] != exp:
-            if k in ("compare", "lint", "merge", "serialize") and (
+            if k in ("compare", "lint", "merge", "serialize", "add") and (
                     collides(tables, o, j0) or collides(tables, o, 0)):
                 sig = "junk-key-collides-with-entity-key"
             else:
@@ -1438,7 +1504,7 @@ def draw_history(rng, ops, weights, n):
     return out
 
 
-WEIGHT = {"getparser": 1.5, "parse": 6, "rewalk": 1.5, "compare": 5, "lint": 3, "merge": 2.5, "serialize": 2.5,
+WEIGHT = {"add": 1.5, "getparser": 1.5, "parse": 6, "rewalk": 1.5, "compare": 5, "lint": 3, "merge": 2.5, "serialize": 2.5,
           "filter": 3, "reconfig": 0.6, "moz": 1.5, "matcher": 2}
 
 
@@ -1462,7 +1528,7 @@ def measure(texts, ops, par=10):
     for o in ops:
         # reference of the MODEL's tables for operations whose junk keys collide when started
         # at Junk.junkid == 0: the same operation with the counter preset far away
-        if o["k"] in ("compare", "lint", "merge", "serialize") and any(
+        if o["k"] in ("compare", "lint", "merge", "serialize", "add") and any(
                 JUNK_KEY.match(k) for t in set(Tables.op_texts(None, o))
                 for k in _re.findall(r"^(_junk_\d+_\d+-\d+)", texts[o["f"]][t], _re.M)):
             jobs.append([dict(o, preset=500000)])
@@ -1518,7 +1584,7 @@ def check_histories(chk, model, texts, seqs, tables, base_by_id, parse_base, int
         for seq, rn, a, b in zip(seqs, runs, impl, outs):
             for i, (x, y) in enumerate(zip(a[0], b[0])):
                 o = seq[i]
-                if o["k"] in ("compare", "lint", "merge", "serialize"):
+                if o["k"] in ("compare", "lint", "merge", "serialize", "add"):
                     j0 = eff_counter(rn["ops"][i - 1]["state"] if i else None, o["f"])
                     mine = collides(tables, o, j0)
                     if (y[0] == [1, [-7]]) != mine:
@@ -1534,7 +1600,7 @@ def check_histories(chk, model, texts, seqs, tables, base_by_id, parse_base, int
 
 def history_round(chk, rng, model, nseq, rnd, t0):
     texts, ops = build_pool(rng)
-    tables, base_by_id, parse_base, intern, njobs = measure(texts, ops, par=chk.n(10, 12))
+    tables, base_by_id, parse_base, intern, njobs = measure(texts, ops, par=14)
     chk.notes.append("round %d: pool of %d operations, %d fresh interpreters for the baselines "
                      "(%.1fs since start)" % (rnd, len(ops), njobs, time.time() - t0))
     for f in range(7):
@@ -1554,16 +1620,25 @@ def history_round(chk, rng, model, nseq, rnd, t0):
         key = {"moz": "moz", "matcher": "matcher"}.get(o["k"])
         if o["k"] in ("filter", "reconfig"):
             key = "cfg%d" % o["c"]
-        if o["k"] in ("parse", "rewalk") and "name" not in o:
+        if o["k"] in ("parse", "rewalk") and "name" not in o and "file" not in o:
             key = "parser%d" % o["f"]
         if "fam" in o:
             key = o["fam"]        # same-language locales; names of one extension
         if key:
             fam.setdefault(key, []).append(o)
     for key, members in sorted(fam.items()):
+        if not chk.thorough and key.split(":")[0] not in ("loc", "ext", "rep", "empty") \
+                and len(members) ** 2 > 100:
+            # quick tier: the generic families (one parser singleton, mozpath, Matcher, a
+            # configuration) are sampled; the targeted families stay exhaustive
+            allp = [[a, b] for a in members for b in members]
+            seqs.extend(rng.sample(allp, 100))
+            continue
         for a in members:
             if len(members) > 14 and not chk.thorough and a["k"] not in ("getparser", "compare", "parse"):
                 continue      # quick tier, big family: only the cheap kinds as the first operation
+            if key.startswith("empty:") and not chk.thorough and not a.get("lead"):
+                continue      # quick tier: a non-empty file first, then every empty-file operation
             for b in members:
                 seqs.append([a, b])
     # random histories
